@@ -107,3 +107,15 @@ claim("C06",
       "Not covered: panics inside the user's handler or Transport; memory held by many in-flight packets; the slice in (*BaseClient).write depends on the io.Writer contract, not on peer bytes (table exception).",
       "guarded-index analysis: linear-form prover over dominating branch facts with interprocedural precondition lifting and summaries; bit-width abstract domain; error-discipline and sibling cross-checks",
       "DESIGN.md section 4, C06")
+
+claim("C05",
+      "Whole property (round trip of every emitted packet through an independent decoder for all inputs) is value-level and NOT decided. Decided: everything about packet construction that is a table, an order or a guard — 52 protocol constants against the MQTT 3.1.1 tables; the fixed-header byte of every pack site (type nibble, reserved bits; PUBLISH = 0x30 | retain?0x01 | qos<<1 | dup?0x08 with each bit guarded by its own field, recovered by decomposing the OR-chain over the CFG); Pack/Parse inverse QoS/retain/dup tables and agreement on identifier presence; field order of every packet body recovered by decomposing the byte sequence handed to pack() (CONNECT optional groups appended under the very test that sets their flag bit; SUBSCRIBE options byte a constant function of that filter's QoS only); length prefixes big-endian with every 16-bit truncation of a length dominated by the 65535 guard; the remaining-length encoder checked bit by bit (bit-slice evaluation) with exact thresholds for the four ranges, the decoder's mirror constants, pack() summing exactly the slices it appends; ValidateMessage dominating publishImpl and rejecting QoS > 2 / over-long payloads; inbound PUBLISH fields by operand identity and exact length guards.",
+      "Not covered: equality of bytes for all inputs; UTF-8 handling of topics; SUBSCRIBE with a QoS above 2 (panics in Pack — outside the statement).",
+      "symbolic decomposition of byte-append chains and OR-chains over SSA (loops, optional groups), bit-slice evaluation of the length encoder, constant tables via go/types, guard dominance",
+      "DESIGN.md section 4, C05")
+
+claim("C10",
+      "This is a lock-discipline property and is decided as one: an interprocedural must-hold lock-set analysis (entry lock-sets by intersection over call sites, task/retry closures attributed to the goroutine that invokes them) gives every access to a field of the shared structs its lock-set and goroutine contexts; a field is accepted when every write/other-access pair is mutually excluded by a common lock held exclusively by at least one side, or both run in the same single non-API goroutine, or both are atomic, or one precedes the go statement that starts the other's goroutine, or both lie in one lifecycle function; locks taken on by-value copies are reported; Transport.Write is called only from BaseClient.write under the shared client's muWrite over the whole buffer; every write() operand is one whole Pack()/pack() result; the retry queue, established list and retry flag are task-goroutine-confined; the deleting signaller look-ups run only in serve; the id counter is atomic. On the pinned tree this analysis reported the four D7 races, which were repaired.",
+      "Assumptions: lock identity is per (struct type, field), not per instance; lifecycle functions (Connect, SetClient, NewReconnectClient) are not called concurrently with themselves on one object. Not covered: races inside user callbacks, on the application's *Message, in mock/paho; schedule-level confirmation (the race detector's job).",
+      "interprocedural lock-set (Eraser-style, pairwise) + goroutine-context confinement + spawn-order analysis over go/ssa",
+      "DESIGN.md section 4, C10")
